@@ -194,6 +194,8 @@ fn create_buffer(size: usize) -> Box<[u8]> {
 
 #[inline(never)]
 pub extern "sysv64" fn memory_read_byte(areas: *const MemoryAreas, addr: u16) -> u8 {
+  #[cfg(gb_dynarec_verif)]
+  verif_trace::record(0, addr, 0);
   let memory_areas: &MemoryAreas = unsafe { &*areas };
   if addr < 0x4000 { // ROM Bank 0
     return memory_areas.rom[addr as usize];
@@ -244,6 +246,8 @@ pub extern "sysv64" fn memory_read_byte(areas: *const MemoryAreas, addr: u16) ->
 
 #[inline(never)]
 pub extern "sysv64" fn memory_write_byte(areas: *mut MemoryAreas, addr: u16, value: u8) {
+  #[cfg(gb_dynarec_verif)]
+  verif_trace::record(1, addr, value);
   let memory_areas: &mut MemoryAreas = unsafe { &mut *areas };
   if addr < 0x8000 { // ROM Banks
     memory_areas.cart_state.write_rom(addr, value);
@@ -325,3 +329,38 @@ pub fn can_dynarec(addr: usize) -> bool {
   addr < 0x8000
 }
 
+/// Verification hook (add-only, compiled only with `--cfg gb_dynarec_verif`):
+/// records every access made through memory_read_byte / memory_write_byte so a
+/// checker can compare bus traffic between execution engines.
+#[cfg(gb_dynarec_verif)]
+pub mod verif_trace {
+  pub const CAP: usize = 1 << 16;
+  pub static mut ENABLED: bool = false;
+  pub static mut LEN: usize = 0;
+  pub static mut OVERFLOW: bool = false;
+  /// kind << 24 | addr << 8 | value; kind 0 = read (value unknown, 0), 1 = write
+  pub static mut BUF: [u32; CAP] = [0; CAP];
+
+  #[inline(always)]
+  pub fn record(kind: u32, addr: u16, value: u8) {
+    unsafe {
+      if ENABLED {
+        if LEN < CAP {
+          *(std::ptr::addr_of_mut!(BUF) as *mut u32).add(LEN) =
+            (kind << 24) | ((addr as u32) << 8) | (value as u32);
+          LEN += 1;
+        } else {
+          OVERFLOW = true;
+        }
+      }
+    }
+  }
+}
+
+#[cfg(gb_dynarec_verif)]
+impl MemoryAreas {
+  /// Verification hook: (source address, next offset) of an OAM DMA in flight
+  pub fn verif_dma_state(&self) -> Option<(usize, u8)> {
+    self.oam_dma.map(|dma| (dma.source, dma.current_offset))
+  }
+}
